@@ -18,12 +18,21 @@ static int hexv(int c) { return c <= '9' ? c - '0' : (c | 32) - 'a' + 10; }
 static uint64_t rng_s;
 static uint32_t rnd(void) { rng_s = rng_s * 6364136223846793005ULL + 1442695040888963407ULL; return (uint32_t)(rng_s >> 33); }
 #define OUTCAP (40u << 20)
+#ifdef TUKAANI_PROJECT_XZ_VERIF
+extern uint32_t lzma_verif_mf_offset_bias;
+#endif
 int main(void)
 {
 	static char line[1 << 25];
 	uint8_t *in = malloc(1 << 24), *out = malloc(OUTCAP);
 	while (fgets(line, sizeof line, stdin)) {
 		unsigned kind, cfg, mode; unsigned long long seed; char fstr[512]; int off = 0;
+		if (!strncmp(line, "bias ", 5)) {
+#ifdef TUKAANI_PROJECT_XZ_VERIF
+			lzma_verif_mf_offset_bias = (uint32_t)strtoul(line + 5, NULL, 10);
+#endif
+			printf("ok\n"); fflush(stdout); continue;
+		}
 		if (sscanf(line, "enc %u %u %u %llu %511s %n", &kind, &cfg, &mode, &seed, fstr, &off) < 5) { printf("ERR\n"); fflush(stdout); continue; }
 		char *h = line + off; size_t n = 0;
 		if (*h != '-') while (h[0] && h[1] && h[0] != '\n') { in[n++] = (uint8_t)(hexv(h[0]) << 4 | hexv(h[1])); h += 2; }
